@@ -73,6 +73,21 @@ func extractC15() *lean {
 	}
 	l.def("payloadStoreChecks", "List String", leanStrList(payloadChecks), payloadChecks)
 
+	// handleTransactionPayload: is the call of privatePayloadReceiver.Finished guarded by a nil check (the receiver is
+	// only configured when the node DID is set)?
+	nilGuard := false
+	if fd := funcDecl(handlers, "handleTransactionPayload"); fd != nil {
+		fin := c15Pos(fd, "p.privatePayloadReceiver.Finished")
+		for _, st := range fd.Body.List {
+			if is, ok := st.(*ast.IfStmt); ok && c15Src(is.Cond) == "p.privatePayloadReceiver == nil" && int(is.End()) < fin && len(is.Body.List) > 0 {
+				if _, ok := is.Body.List[len(is.Body.List)-1].(*ast.ReturnStmt); ok {
+					nilGuard = true
+				}
+			}
+		}
+	}
+	l.def("payloadFinishedNilGuard", "Bool", c15Bool(nilGuard), nilGuard)
+
 	// which functions in handlers.go/senders.go assign the Payload / Data field of an outgoing message
 	var payloadWriters []string
 	for _, file := range []string{"network/transport/v2/handlers.go", "network/transport/v2/senders.go", "network/transport/v2/protocol.go", "network/transport/v2/transactionlist_handler.go"} {
